@@ -337,7 +337,15 @@ def rule_r4(rep, repo):
                     and inner.func.attr in ("query_ball_point", "query_ball_tree", "query_pairs")):
                 continue
             name = s.targets[0].id
-            uses = [x for x in ast.walk(f.node) if isinstance(x, ast.Subscript)
+            # subscripts inside a comprehension / lambda that binds the same name anew do not use this array
+            rebound = set()
+            for cmp_ in ast.walk(f.node):
+                if isinstance(cmp_, (ast.ListComp, ast.SetComp, ast.GeneratorExp, ast.DictComp)):
+                    if any(isinstance(y, ast.Name) and y.id == name for g_ in cmp_.generators for y in ast.walk(g_.target)):
+                        rebound |= {id(x) for x in ast.walk(cmp_)}
+                elif isinstance(cmp_, ast.Lambda) and name in [a_.arg for a_ in cmp_.args.args]:
+                    rebound |= {id(x) for x in ast.walk(cmp_)}
+            uses = [x for x in ast.walk(f.node) if isinstance(x, ast.Subscript) and id(x) not in rebound
                     and any(isinstance(y, ast.Name) and y.id == name for y in ast.walk(x.slice))
                     and x.lineno >= s.lineno]
             if not uses:
@@ -357,7 +365,7 @@ def rule_r4(rep, repo):
                     f"`{norm(s)[:90]}`: an empty result list becomes a float64 array, which cannot be used as an "
                     f"index at `{norm(uses[0])[:50]}` (IndexError for a sphere containing no point)",
                     repo.rel(f.module, s))
-    rep.floor("index arrays built from ball queries", n, 2)
+    rep.floor("index arrays built from ball queries", n, 1)
 
 
 def rule_r5_r6(rep, repo, classes):
